@@ -241,7 +241,7 @@ func genLayer(t *rapid.T, label string) LayerSpec {
 	}
 }
 
-func genHist(t *rapid.T, label string, empty bool) HistSpec {
+func genHist(t *rapid.T, label string, empty bool, seq int) HistSpec {
 	h := HistSpec{Empty: empty, Created: rapid.IntRange(0, len(timeTable)-1).Draw(t, label+"_hcreated"),
 		Author: rapid.SampledFrom(authorPool).Draw(t, label+"_hauthor"), Comment: rapid.SampledFrom(commentPool).Draw(t, label+"_hcomment")}
 	if empty {
@@ -249,6 +249,8 @@ func genHist(t *rapid.T, label string, empty bool) HistSpec {
 	} else {
 		h.CreatedBy = rapid.SampledFrom(createdPool).Draw(t, label+"_hby")
 	}
+	// a unique suffix makes every entry identifiable (history alignment oracle)
+	h.CreatedBy += fmt.Sprintf(" #%s.%d", label, seq)
 	return h
 }
 
@@ -257,13 +259,13 @@ func genAlignedHist(t *rapid.T, label string, n int, trailing bool) []HistSpec {
 	out := []HistSpec{}
 	for i := 0; i < n; i++ {
 		for k := rapid.SampledFrom([]int{0, 0, 1, 2}).Draw(t, fmt.Sprintf("%s_pre%d", label, i)); k > 0; k-- {
-			out = append(out, genHist(t, label, true))
+			out = append(out, genHist(t, label, true, len(out)))
 		}
-		out = append(out, genHist(t, label, false))
+		out = append(out, genHist(t, label, false, len(out)))
 	}
 	if trailing {
 		for k := rapid.SampledFrom([]int{0, 1, 2}).Draw(t, label+"_post"); k > 0; k-- {
-			out = append(out, genHist(t, label, true))
+			out = append(out, genHist(t, label, true, len(out)))
 		}
 	}
 	return out
